@@ -108,6 +108,8 @@ func NewGen(r *Rng, p *Profile, s *Sim) *Gen {
 		g.faultOn[k] = !r.Chance(0.3)
 	}
 	g.faultOn["next_after_early_close"] = r.Chance(0.15)
+	// known finding (C20): only a few histories contain it, so that it cannot hide other differences
+	g.faultOn["get_after_end_zerosize"] = r.Chance(0.04)
 	var kinds []string
 	for k := range p.W {
 		kinds = append(kinds, k)
@@ -493,7 +495,11 @@ func (g *Gen) Next() Op {
 		return Op{K: KMatrix, E: g.R.Intn(1000)}
 	case KQMisuse:
 		kinds := QMisuseKinds // incl. Next after an early Close (was a known finding, repaired)
-		return Op{K: KQMisuse, M: kinds[g.R.Intn(len(kinds))], E: g.R.Intn(1000), N: g.R.Intn(1000), F: g.R.Intn(MaxFilters), W: g.R.Intn(2)}
+		m := kinds[g.R.Intn(len(kinds))]
+		if m == "get_after_end_zerosize" && !g.faultOn[m] {
+			m = "get_after_end"
+		}
+		return Op{K: KQMisuse, M: m, E: g.R.Intn(1000), N: g.R.Intn(1000), F: g.R.Intn(MaxFilters), W: g.R.Intn(2)}
 	case KCodec:
 		op := Op{K: KCodec, E: g.R.Intn(100000), X: g.R.Uint64()}
 		if g.R.Chance(0.5) {
